@@ -34,6 +34,10 @@ def plan(ctx):
                               bounds="nested list [[v0,v1],[v2]] / dict {'p':[v0],'q':v1} with symbolic leaves (also inside a host structure deepcopy cannot copy), symbolic mutation index, "
                                      "symbolic choice of host-side mutation afterwards",
                               desc=f"eval({text!r}): host objects unchanged; later host mutation invisible through stored values"))
+    for i, text in enumerate(h.TWICE):
+        obs.append(Obligation(f"twice.t{i}", "xh", "c12", "twice_cached", param={"t": i}, timeout=T,
+                              bounds="the text evaluated twice for two names mappings, with / without a parse cache; the host mutates what the first evaluation stored (3 ways) in between",
+                              desc=f"eval({text!r}) twice: the second evaluation stores fresh values equal to a fresh parser's, never the first evaluation's objects"))
     obs.append(Obligation("direct", "xh", "c12", "direct_mutation", param={"text": "a[i].push(w)"}, timeout=T,
                           bounds="2x1 nested list", desc="a direct mutator is visible (non-vacuity)"))
     return {
